@@ -219,10 +219,10 @@ impl Property for C22 {
                     let d = first_diff(&want, &got, "");
                     let cls: String = d.split(':').next().unwrap_or("").split('/').filter(|p| !p.is_empty() && !p.starts_with('<')).take(3).collect::<Vec<_>>().join("/");
                     // the thumbnail of an ingredient that has a manifest of its own is a class of its own
-                    let cls = if d.contains("/ingredients[") && d.contains("/thumbnail: missing on the right") { "signed-ingredient-thumbnail-dropped".to_string() } else { cls };
+                    let cls = if d.contains("/ingredients[") && d.contains("/thumbnail: missing on the right") { format!("signed-ingredient-thumbnail-dropped:{}", if with_thumbs { "caller-supplied" } else { "its-own-claim-thumbnail" }) } else { cls };
                     out.violate(10, &format!("restored-report-differs:{cls}"), "C22 same reported manifest content after restore",
                         json!({"scenario": tag, "first_difference": d}));
-                    if cls == "signed-ingredient-thumbnail-dropped" {
+                    if cls.starts_with("signed-ingredient-thumbnail-dropped") {
                         // look past it: what does not depend on that thumbnail must still agree
                         // (title, format, state, assertions, ingredient titles / relationships,
                         // the bytes of the claim thumbnail and of unsigned ingredients' thumbnails)
